@@ -29,7 +29,7 @@ KINDMAP = {inspect.Parameter.POSITIONAL_ONLY: "posonly", inspect.Parameter.POSIT
            inspect.Parameter.VAR_KEYWORD: "varkw"}
 
 
-def render_params(params, recv, recv_ann=None):
+def render_params(params, recv, recv_ann=None, recv_posonly=False):
     out, seen_posonly, star_done = ([recv + (": " + recv_ann if recv_ann else "")] if recv else []), False, False
     po = [p for p in params if p["kind"] == "posonly"]
     pk = [p for p in params if p["kind"] == "poskw"]
@@ -45,7 +45,7 @@ def render_params(params, recv, recv_ann=None):
             s += (" = " if p.get("ann") else "=") + p["default"]
         return s
     out += [one(p) for p in po]
-    if po:
+    if po or (recv and recv_posonly):       # `def m(self, /, x)`: the receiver alone is positional-only
         out.append("/")
     out += [one(p) for p in pk]
     if va:
@@ -55,8 +55,6 @@ def render_params(params, recv, recv_ann=None):
     out += [one(p) for p in ko]
     if vk:
         out.append(one(vk[0], "**"))
-    if recv and po:   # the receiver must come before the positional-only marker: make it positional-only too
-        pass
     return ", ".join(out)
 
 
@@ -71,7 +69,7 @@ def func_source(f, ind):
         lines.append(ind + "@property")
     ret = " -> " + f["ret_ann"] if f.get("ret_ann") else ""
     lines.append("%s%sdef %s(%s)%s:" % (ind, "async " if f.get("is_async") else "", f["name"],
-                                        render_params(f["params"], recv, f.get("recv_ann")), ret))
+                                        render_params(f["params"], recv, f.get("recv_ann"), f.get("recv_posonly", False)), ret))
     lines.append(ind + ("    yield None" if f.get("is_gen") else "    return None"))
     return "\n".join(lines) + "\n\n"
 
@@ -188,13 +186,29 @@ def run_module_case(case):
     mk = lambda req, opt: make_typed_dict(required_fields=req, optional_fields=opt)  # noqa: E731
     rt = lambda a: None if a is None or a["k"] == "absent" else absmodel.real_type(a, make_td=mk)  # noqa: E731
     mod, path = load_module(case["funcs"])
+    mod2 = path2 = None
     try:
         traces, lives = [], {}
-        for f in case["funcs"]:
-            lf = live_function(mod, f)
-            lives[f["name"] + "@" + ".".join(f["container"])] = lf
-            for tr in f.get("traces") or []:
-                traces.append(CallTrace(lf, {n: rt(a) for n, a in tr["args"].items()}, rt(tr.get("ret")), rt(tr.get("yld"))))
+
+        def traces_of(m, funcs, keep):
+            out = []
+            for f in funcs:
+                lf = live_function(m, f)
+                if keep:
+                    lives[f["name"] + "@" + ".".join(f["container"])] = lf
+                owner = m
+                for c in f["container"]:
+                    owner = getattr(owner, c)
+                # like the real tracer, a trace of a method records the receiver too (self: the class, cls: Type[class])
+                recv_arg = {"instance": {"self": owner}, "property": {"self": owner}, "class": {"cls": typing.Type[owner]}}.get(f["fkind"], {})
+                for tr in f.get("traces") or []:
+                    out.append(CallTrace(lf, dict(recv_arg, **{n: rt(a) for n, a in tr["args"].items()}), rt(tr.get("ret")), rt(tr.get("yld"))))
+            return out
+        traces = traces_of(mod, case["funcs"], True)
+        if case.get("other"):      # a second module traced in the same session (its stub is not the one examined)
+            mod2, path2 = load_module(case["other"])
+            t2 = traces_of(mod2, case["other"], False)
+            traces = t2 + traces if case.get("other_first") else traces + t2
         strategy = getattr(ExistingAnnotationStrategy, case["strategy"])
         err, text = "NONE", ""
         try:
@@ -272,11 +286,14 @@ def run_module_case(case):
                                if (tuple(s["class_path"]), s["name"]) not in traced_keys})
         return rec
     finally:
-        sys.modules.pop(mod.__name__, None)
-        try:
-            os.unlink(path)
-        except OSError:
-            pass
+        for m, pth in ((mod, path), (mod2, path2)):
+            if m is None:
+                continue
+            sys.modules.pop(m.__name__, None)
+            try:
+                os.unlink(pth)
+            except OSError:
+                pass
 
 
 def _run_chunk(chunk):
@@ -343,8 +360,6 @@ def gen_c12(tier, seed):
         for fk, cont in fkinds:
             if fk == "property" and ps:
                 continue
-            if fk in ("instance", "class") and any(p["kind"] == "posonly" for p in ps):
-                continue   # the receiver would have to be positional-only as well; covered by module/static
             funcs.append({"name": "f%d_%s" % (n, fk), "container": cont, "fkind": fk, "params": ps,
                           "is_async": n % 7 == 3 and fk != "property", "is_gen": n % 5 == 2 and fk != "property" and n % 7 != 3})
     rng.shuffle(funcs)
@@ -365,6 +380,24 @@ def gen_c12(tier, seed):
         ps = [] if fk == "property" else [{"name": "a", "kind": "poskw", "default": None}, {"name": "b", "kind": "poskw", "default": "None"}]
         f = {"name": "build", "container": ["Widget"], "fkind": fk, "params": ps, "traces": traces_for(ps)}
         cases.append({"funcs": [f], "strategy": "REPLICATE", "k": 0, "family": "c12_same_qualname_other_kind"})
+    # methods whose receiver is positional-only (`def m(self, /, x)`, `def c(cls, a, /, b)`)
+    for n, (fk, ps) in enumerate([(fk, ps) for fk in ("instance", "class", "property") for ps in (
+            [], [{"name": "x", "kind": "poskw", "default": None}],
+            [{"name": "a", "kind": "posonly", "default": None}, {"name": "b", "kind": "poskw", "default": "None"}],
+            [{"name": "x", "kind": "kwonly", "default": None}]) if not (fk == "property" and ps)]):
+        f = {"name": "po_recv_%d" % n, "container": ["Cls"], "fkind": fk, "params": ps, "recv_posonly": True, "traces": traces_for(ps)}
+        cases.append({"funcs": [f], "strategy": "REPLICATE", "k": 0, "family": "c12_positional_only_receiver"})
+    # two modules traced in one session, each with a class of the SAME name (methods partly equally named)
+    ps1 = [{"name": "a", "kind": "poskw", "default": None}]
+    ps2 = [{"name": "a", "kind": "poskw", "default": None}, {"name": "b", "kind": "poskw", "default": "None"}]
+    mk = lambda nm, fk, ps: {"name": nm, "container": ["Shared"], "fkind": fk, "params": ps, "traces": traces_for(ps)}  # noqa: E731
+    here = [mk("common", "instance", ps1), mk("only_here", "static", ps1)]
+    there = [mk("common", "instance", ps2), mk("only_there", "class", ps2)]
+    for first in (False, True):
+        cases.append({"funcs": here, "other": there, "other_first": first, "strategy": "REPLICATE", "k": 0,
+                      "family": "c12_same_class_name_in_two_traced_modules"})
+        cases.append({"funcs": there, "other": here, "other_first": first, "strategy": "REPLICATE", "k": 0,
+                      "family": "c12_same_class_name_in_two_traced_modules"})
     # only positional-only parameters, long enough to wrap: the trailing `/` must survive the multi-line layout
     for n in range(1, 5):
         ps = [{"name": "positional_only_parameter_number_%d_%s" % (i, "x" * 22), "kind": "posonly", "default": None} for i in range(n + 2)]
